@@ -132,6 +132,10 @@ Section Transfer.
        sim_neg_mul_pos : rsimdb.
 
   (* ---- ledger primitives (Model/Ledger.v) ---- *)
+  Lemma sim_all_after a o n : rsim (all_after A a o n) (all_after B a o n).
+  Proof. unfold all_after. rs. apply sim_add. Qed.
+  Hint Resolve sim_all_after : rsimdb.
+
   Lemma sim_set_latest st af v : rsim (set_latest A st af v) (set_latest B st af v).
   Proof. unfold set_latest. rs. Qed.
   Hint Resolve sim_set_latest : rsimdb.
